@@ -7,7 +7,10 @@
 //!      the printed text must be a fixpoint AND carry the same s-expression tree as the source
 //!      (nothing the parser accepted may be lost or altered by the printer);
 //!  (D) desugared programs (`resolve_program`) print to text a fresh engine accepts with the same outputs;
-//!  (E) extracted terms re-parse and are equal to the value they were extracted from.
+//!  (E) extracted terms re-parse and are equal to the value they were extracted from;
+//!  (F) bare tokens: the real reader's classification (bool / i64 / NaN / inf / -inf / finite float / symbol) against
+//!      the Lean classifier (`Model/Atom.lean`, theorems C15_int_token, C15_digits_token, C15_symbol_token), and
+//!      `i64` Display against the Lean `printInt`.
 use crate::{engine, lean::run_driver, report::Report, rng::Rng, sexp::{self, Sexp}, Ctx};
 use egglog::ast::{Literal, Parser};
 use egglog::EGraph;
@@ -272,6 +275,56 @@ fn desugar_rerun(rep: &mut Report, rng: &mut Rng, n: usize) {
     }
 }
 
+/// (F) bare tokens through the real reader and through the Lean classifier
+fn atoms(rep: &mut Report, rng: &mut Rng, n: usize) {
+    const AL: [char; 26] = ['0', '1', '5', '9', '+', '-', '.', 'e', 'E', 'i', 'n', 'f', 'a', 't', 'y', 'N', 'I', 'r', 'u', 'l', 's', '_', 'x', '7', '2', '3'];
+    let fixed = ["true", "false", "NaN", "inf", "-inf", "+inf", "nan", "Inf", "infinity", "-Infinity", "INF", "-nan", "9223372036854775807", "9223372036854775808", "-9223372036854775808",
+        "-9223372036854775809", "+9223372036854775807", "+0", "-0", "00012", "1.", ".5", ".", "-", "+", "-.", "1e5", "1e", "1e+", "1e-7", "1E400", "-1e400", "1.5.2", "1e5e5", "e5", "1_000",
+        "123456789012345678901234567890", "0.1", "-0.0", "1e21", "1.0e19", "5e-324", "truee", "falsey", "t", "x", "--1", "+-1", "1-", "0x10", "1f", "in", "na", "infinit", "infinityy"];
+    let mut toks: Vec<String> = fixed.iter().map(|s| s.to_string()).collect();
+    for _ in 0..n {
+        toks.push(match rng.below(6) {
+            0 => (0..1 + rng.below(22)).map(|_| char::from(b'0' + rng.below(10) as u8)).collect(),                         // digit runs up to beyond i64
+            1 => format!("{}{}", if rng.chance(1, 2) { "-" } else { "" }, (rng.next() as i64).wrapping_shr(rng.below(64) as u32)), // i64 values
+            2 => { let v = [i64::MAX as i128 + rng.below(3) as i128 - 1, i64::MIN as i128 - 1 + rng.below(3) as i128][rng.below(2)]; v.to_string() }
+            _ => (0..1 + rng.below(7)).map(|_| AL[rng.below(AL.len())]).collect(),
+        });
+    }
+    let mut lines = vec![]; let mut want = vec![];
+    toks.retain(|t| t != "_"); // the wildcard: the expression parser (not the reader) renames it to a fresh variable
+    for t in &toks {
+        rep.evaluations += 1;
+        let real = match Parser::default().get_expr_from_string(None, t) {
+            Ok(egglog::ast::Expr::Lit(_, Literal::Bool(b))) => format!("bool {b}"),
+            Ok(egglog::ast::Expr::Lit(_, Literal::Int(i))) => format!("int {i}"),
+            Ok(egglog::ast::Expr::Lit(_, Literal::Float(f))) => if f.is_nan() { "nan".into() } else if f.0 == f64::INFINITY { "inf".into() } else if f.0 == f64::NEG_INFINITY { "ninf".into() } else { "num".to_string() },
+            Ok(egglog::ast::Expr::Var(_, v)) => if &v.to_string() == t { "atom".into() } else { format!("atom-altered({v})") },
+            Ok(other) => format!("other({other})"),
+            Err(e) => format!("error({e})"),
+        };
+        lines.push(format!("at cls {t}")); want.push((t.clone(), real));
+    }
+    // i64 Display against the model's printInt
+    let ints: Vec<i64> = (0..n / 4).map(|_| (rng.next() as i64).wrapping_shr(rng.below(64) as u32)).chain([i64::MIN, i64::MAX, 0, -1]).collect();
+    for i in &ints { lines.push(format!("at print {i}")); want.push((format!("print {i}"), i.to_string())); }
+    match run_driver(&lines) {
+        Err(e) => rep.violate("correspondence", "driver-failure", e, json!({})),
+        Ok(m) => for (i, (t, real)) in want.iter().enumerate() {
+            rep.traces_vs_model += 1;
+            let model = &m[i];
+            if t.starts_with("print ") { if model != real { rep.violate("correspondence", "c15-int-display-mismatch", format!("i64 Display gives `{real}`, the model's printInt `{model}`"), json!({"token": t})); } continue; }
+            // a numeric spelling that overflows f64 is not a finite float: the reader keeps it as a symbol
+            let overflow = model == "num" && real == "atom" && t.parse::<f64>().map(|f| !f.is_finite()).unwrap_or(false);
+            if model != real && !overflow {
+                let kind = if real.starts_with("error") || real.starts_with("atom-altered") || real.starts_with("other") { "property" } else { "correspondence" };
+                rep.violate(kind, "c15-token-class", format!("token `{t}`: the reader gives {real}, the Lean classifier {model} (C15_int_token / C15_digits_token / C15_symbol_token)"), json!({"token": t}));
+            }
+            if model != "atom" { rep.note_nontrivial(&(t, "tok")); }
+            rep.count(&format!("token_class_{}", model.split(' ').next().unwrap_or("")), 1);
+        }
+    }
+}
+
 pub fn run(ctx: &Ctx) -> Report {
     let mut rep = Report::new("C15", "(A) strings over an alphabet of quotes, backslashes, control characters and unicode; (B) random s-expression texts with comments/odd whitespace, one third damaged at a random position; (C) random commands over the grammar with all options and literal classes (i64 extremes, NaN/inf/-0.0/subnormal/huge floats, nasty strings); (D,E) generated programs resolved, printed and re-run, extracted terms re-checked. non-trivial = string needing an escape / accepted text containing a string / command whose printed form carries the same tree as the source (distinct by text)");
     let mut rng = Rng::new(ctx.seed ^ 0xC15);
@@ -279,5 +332,6 @@ pub fn run(ctx: &Ctx) -> Report {
     readers(&mut rep, &mut rng, ctx.n(900, 30000));
     grammar(&mut rep, &mut rng, ctx.n(1500, 40000));
     desugar_rerun(&mut rep, &mut rng, ctx.n(60, 1500));
+    atoms(&mut rep, &mut rng, ctx.n(3000, 60000));
     rep
 }
